@@ -15,7 +15,7 @@ LEVEL = 'exploration'
 RULE = ('full product: N in {2,3} (quick) / {2,3,4,5} states with non-degenerate energies and generic fixed overlaps; T in '
         '{8,10,12} (quick) / {8,12,16,24}; t0 = 1..T/3; every state; method {eigh, cholesky}; sort {Eigenvalue, Eigenvector '
         '(every admissible ts), None (every ts)}; vector_obs on/off (on: deviation-bounded to N<=3, T<=10); variants {exact '
-        'symmetric, non-symmetric input (on all timeslices / only from t=2 on), one / two undefined timeslices, level crossing (non-exponential state weights; for N>=3 also a cyclic re-ordering of three states)}; '
+        'symmetric, non-symmetric input (on all timeslices / only from t=2 on / with the first or later timeslices undefined), one / two undefined timeslices, level crossing (non-exponential state weights; for N>=3 also a cyclic re-ordering of three states)}; '
         'Corr.Eigenvalue projected correlator against exp(-E_n (t-t0)); prune to every Ntrunc < N (exact energies; projection formula v_i^T G v_j on non-symmetric targets and with undefined timeslices); matrix pencil for k=1..3 '
         'exponentials x every admissible p x single / two data sets.  Non-trivial = every case (each checks the eigen-equation '
         'on every t > t0)')
@@ -114,7 +114,7 @@ def build(tier, seed):
     Ts = (8, 10, 12) if tier == 'quick' else (8, 12, 16, 24)
     for N in Ns:
         for T in Ts:
-            for variant in ('exact', 'nonsym', 'nonsym-late', 'undef1', 'undef2', 'crossing', 'crossing-large', 'crossing-small') + (('crossing3',) if N >= 3 else ()):
+            for variant in ('exact', 'nonsym', 'nonsym-late', 'nonsym-undef0', 'nonsym-undef-mid', 'undef1', 'undef2', 'crossing', 'crossing-large', 'crossing-small') + (('crossing3',) if N >= 3 else ()):
                 cases.append({'kind': 'gevp', 'N': N, 'T': T, 'variant': variant})
         for T in Ts[:2]:
             cases.append({'kind': 'prune', 'N': N, 'T': T})
@@ -161,9 +161,9 @@ def check_vectors(pe, acc, sub, C, G, t0, t, vecs, label, crossing=False):
 
 def run_gevp(pe, acc, case):
     N, T, variant = case['N'], case['T'], case['variant']
-    undefined = {'undef1': (T // 2,), 'undef2': (2, T - 2)}.get(variant, ())
+    undefined = {'undef1': (T // 2,), 'undef2': (2, T - 2), 'nonsym-undef0': (0,), 'nonsym-undef-mid': (T // 2, T - 1)}.get(variant, ())
     weights = crossing_weights if variant.startswith('crossing') and variant != 'crossing3' else crossing3_weights if variant == 'crossing3' else None
-    C = make_corr(pe, N, T, variant, weights=weights, antisym=(0.003 if variant in ('nonsym', 'nonsym-late') else 0.0), undefined=undefined,
+    C = make_corr(pe, N, T, variant, weights=weights, antisym=(0.003 if variant.startswith('nonsym') else 0.0), undefined=undefined,
                   antisym_from=(2 if variant == 'nonsym-late' else 0), scale={'crossing-large': 1.0e6, 'crossing-small': 1.0e-6}.get(variant, 1.0))     # 'late': symmetric on the first timeslices, non-symmetric afterwards
     G = {t: mean_matrix(C, t) for t in range(T) if t not in undefined}
     for t0 in range(1, T // 3 + 1):
@@ -390,6 +390,21 @@ def run_prune(pe, acc, case):
             if P.N != Ntrunc or P.T != T:
                 acc.fail('prune:shape', sub, 'pruned correlator has N=%d T=%d' % (P.N, P.T))
                 continue
+            # the result is a correlator like any other of its size: timeslices of shape (Ntrunc, Ntrunc), for Ntrunc = 1 the
+            # single-valued form (1,) on which item access gives an observable and the effective mass can be taken
+            shapes = {np.shape(c) for c in P.content if c is not None}
+            if shapes != {(Ntrunc, Ntrunc) if Ntrunc > 1 else (1,)}:
+                acc.fail('prune:shape', sub, 'pruned correlator (Ntrunc=%d) has timeslices of shape %s' % (Ntrunc, sorted(shapes)))
+                continue
+            if Ntrunc == 1:
+                try:
+                    me = P.m_eff('log')
+                    mbad = None if isinstance(P[2], pe.Obs) and abs(me[2].value - ENERGIES[0]) <= 1e-6 else 'item %s, effective mass %r, exact %r' % (type(P[2]).__name__, me[2].value, ENERGIES[0])
+                except Exception as e:
+                    mbad = 'm_eff raised %s: %s' % (type(e).__name__, e)
+                if mbad:
+                    acc.fail('prune:single-state-unusable', sub, 'prune(1) of a %dx%d matrix: %s' % (N, N, mbad))
+                    continue
             bad = None
             for n in range(Ntrunc):
                 # the pruned matrix contains exactly the lowest Ntrunc states: diagonal element n is a single exponential
@@ -413,7 +428,8 @@ def run_prune(pe, acc, case):
                 acc.ok(('prune', N, T, Ntrunc, t0proj, tproj), True, 'prune')
     # the projection formula itself, also for non-symmetric target matrices and with undefined timeslices:
     # G'_ij(t) = v_i^T G(t) v_j with the vectors of the (symmetrised) GEVP at (t0proj, tproj)
-    for variant, kw in (('nonsymmetric', {'antisym': 0.02}), ('undefined', {'undefined': (0, T - 2)}), ('nonsymmetric+undefined', {'antisym': 0.02, 'undefined': (T - 3,)})):
+    for variant, kw in (('nonsymmetric', {'antisym': 0.02}), ('undefined', {'undefined': (0, T - 2)}), ('nonsymmetric+undefined', {'antisym': 0.02, 'undefined': (T - 3,)}),
+                        ('nonsymmetric+first-undefined', {'antisym': 0.02, 'undefined': (0,)})):
         G = make_corr(pe, N, T, 'prune', **kw)
         for Ntrunc in range(1, N):
             t0proj, tproj = 1, 2
